@@ -158,6 +158,24 @@ func (r *FakeRelay) DelCipherBox(ctx context.Context, in *hashmailrpc.CipherBoxA
 }
 
 // DeleteBox removes a mailbox behind the endpoints' backs (relay-side expiry).
+// Inject puts a message into a mailbox as if somebody had sent it (the relay is open to anybody
+// who knows a stream id; stale or foreign bytes in a mailbox are within the relay's power).
+func (r *FakeRelay) Inject(k string, data []byte) {
+	r.mu.Lock()
+	defer r.mu.Unlock()
+	b, ok := r.boxes[k]
+	if !ok {
+		b = &relayBox{notify: make(chan struct{}, 1)}
+		r.boxes[k] = b
+	}
+	b.q = append(b.q, relayMsg{append([]byte(nil), data...), time.Now()})
+	r.log("inject", k, data)
+	select {
+	case b.notify <- struct{}{}:
+	default:
+	}
+}
+
 func (r *FakeRelay) DeleteBox(k string) {
 	r.mu.Lock()
 	defer r.mu.Unlock()
